@@ -7,9 +7,9 @@ import (
 // Weights bias exploration only; in a replay every enabled action is addressable by index.
 type Weights struct {
 	Reply, ReplyErr, Emit, AdvEvent, Advance, ExtWrite, Stall, ConnDrop, ReplyBurst, LateEnd int
-	Ack, AckSkip, AckStale, Park, Unpark                                            int
-	Close, Crash, Commit, Scrape, API, Publish, Persist, Failover                   int
-	EndStream                                                                       int
+	Ack, AckSkip, AckStale, Park, Unpark                                                     int
+	Close, Crash, Commit, Scrape, API, Publish, Persist, Failover                            int
+	EndStream                                                                                int
 }
 
 // Cfg is the configuration of one run: drawn from the tape (swarm), so a replay file needs nothing else.
@@ -68,6 +68,7 @@ type Cfg struct {
 	BootFaults       bool
 	MaxReplyDelay    time.Duration // with delay faults: longest time a request may wait before the clock is held (0 = unbounded)
 	Extra            map[string]string
+	YieldSites       map[string]bool // armed pre-emption points (tools/instrument yieldSites)
 
 	W Weights
 }
